@@ -236,6 +236,47 @@ class EvalArm(Obligation):
                         pass
             return None
 
+        spec_cache = {}
+
+        def specialise(t, extra, budget=[400]):
+            """resolve if-then-else conditions of a reference term that the path condition already decides, so that a
+            reference aligned with the implementation becomes syntactically equal to it (no arithmetic reasoning needed)"""
+            if not is_sym(t): return t
+            k = t.get_id()
+            if k in spec_cache: return spec_cache[k]
+            r = t
+            if z3.is_app(t) and t.num_args() > 0:
+                if z3.is_app_of(t, z3.Z3_OP_ITE):
+                    c = specialise(t.arg(0), extra)
+                    dec = None
+                    if z3.is_true(c): dec = True
+                    elif z3.is_false(c): dec = False
+                    elif budget[0] > 0:
+                        budget[0] -= 1
+                        e.solver.set('timeout', 3000)
+                        try:
+                            if e.check(*(extra + [z3.Not(c)])) == z3.unsat: dec = True
+                            elif e.check(*(extra + [c])) == z3.unsat: dec = False
+                        finally:
+                            e.solver.set('timeout', self.limits.get('timeout_ms', 30000))
+                    if dec is True: r = specialise(t.arg(1), extra)
+                    elif dec is False: r = specialise(t.arg(2), extra)
+                    else: r = z3.If(c, specialise(t.arg(1), extra), specialise(t.arg(2), extra))
+                elif z3.is_or(t):
+                    ch = []
+                    for x in t.children():
+                        y = z3.simplify(specialise(x, extra))
+                        if z3.is_true(y): ch = None; break
+                        ch.append(y)
+                    r = z3.BoolVal(True) if ch is None else z3.Or(ch)
+                else:
+                    ch = [specialise(x, extra) for x in t.children()]
+                    if any(a.get_id() != b.get_id() for a, b in zip(ch, t.children())):
+                        try: r = t.decl()(*ch)
+                        except Exception: r = t
+            spec_cache[k] = r
+            return r
+
         def confirm(out, refcase, what, extra_conds):
             """find a model of PC /\ extra_conds whose native run shows the violation; up to 6 alternatives"""
             blocked = []
@@ -287,6 +328,11 @@ class EvalArm(Obligation):
                 elif out[0] == 'ok':
                     if oc_[0] == 'ok':
                         pv = oc_[1](out[1])
+                        if is_sym(pv):
+                            spec_cache.clear()
+                            pv = z3.simplify(specialise(pv, extra))
+                            if z3.is_true(pv): pv = True
+                            elif z3.is_false(pv): pv = False
                         q = b_not(pv)
                         r = e.check(*(extra + [q])) if q is not False else z3.unsat
                         if q is True: r = z3.sat
